@@ -75,14 +75,32 @@ Proof. exact T_flag_truth. Qed.
 Theorem flag_kept_by_embeddings : forall d f s,
   (forall a b, dent d (f a) (f b) = dent d a b) -> (forall a, dbot d (f a) = dbot d a) -> Wf d s -> Wf d (MapAssign d f true s).
 Proof. exact T_map_keep_flag. Qed.
-(* ... and WRONG for a closure-like map (topological_closure_assign, fold_space_dimensions keep it): counter-model *)
-Theorem keep_flag_after_closure_refuted :
+(* topological_closure_assign and fold_space_dimensions (which reset the flag since /repo fd3faff, e7857d0):
+   the flag tells the truth afterwards; their action on the union is [map_union] *)
+Theorem closure_fold_flag_truth : forall d cl s, Wf d (ClosureAssign d cl s) /\ Wf d (FoldAssign d cl s).
+Proof. exact T_closure_fold_flag_truth. Qed.
+(* why the reset is necessary (the behaviour before the fix): keeping the flag across a closure-like map
+   makes it lie -- counter-model *)
+Theorem keeping_flag_for_closure_is_wrong :
   exists (s : Ps fs_dom),
     (forall a p, dden fs_dom a p -> dden fs_dom (fs_close a) p) /\ Wf fs_dom s /\ Flag fs_dom s = true /\
     Flag fs_dom (MapAssign fs_dom fs_close true s) = true /\
     CheckReduced fs_dom (MapAssign fs_dom fs_close true s) = false /\
     ~ Wf fs_dom (MapAssign fs_dom fs_close true s).
-Proof. exact PSDom.keep_flag_after_closure_refuted. Qed.
+Proof. exact PSDom.keeping_flag_for_closure_is_wrong. Qed.
+
+(* strictly_contains: omega-reduces BOTH operands (same unions, really reduced) and a positive answer
+   implies geometric containment *)
+Theorem strictly_contains_sound : forall d, laws d -> forall x y,
+  snd (StrictlyContains d never x y) = true -> forall p, Den d y p -> Den d x p.
+Proof. exact T_strictly_contains_sound. Qed.
+Theorem strictly_contains_states : forall d, laws d -> forall x y p,
+  (Den d (fst (fst (StrictlyContains d never x y))) p <-> Den d x p) /\
+  (Den d (snd (fst (StrictlyContains d never x y))) p <-> Den d y p).
+Proof. exact T_strictly_contains_states. Qed.
+Theorem strictly_contains_reduces_both : forall d, laws d -> forall x y, Wf d x -> Wf d y ->
+  Really_reduced d (fst (fst (StrictlyContains d never x y))) /\ Really_reduced d (snd (fst (StrictlyContains d never x y))).
+Proof. exact T_strictly_contains_reduces_both. Qed.
 
 (* the laws hold for the reference polyhedra whatever the (untrusted) generator hints are *)
 Theorem reference_polyhedra_satisfy_laws : forall dim nb, laws (poly_dom dim nb).
